@@ -821,6 +821,8 @@ impl Engine for OtlpSim {
         }
         let final_flush = !ch.chance(1, 4);
         let custom_headers = ch.chance(1, 3);
+        // the per-signal convenience constructors (`logs_http_proto(url)` ...) instead of a transport builder
+        let short_forms = ch.chance(1, 4);
         // rarely: one event that alone exceeds the 1 MiB request limit
         if !c14 && ch.chance(1, 150) && !events.is_empty() {
             let k = ch.choose(events.len() as u32) as usize;
@@ -873,7 +875,18 @@ impl Engine for OtlpSim {
                     t
                 }
             };
+            let short = short_forms && h.gzip && !custom_headers;
+            let grpc_base = format!("http://{}:4317", h.host);
             builder = match (h.signal, h.transport) {
+                (Signal::Logs, Transport::HttpJson) if short => builder.logs(emit_otlp::logs_http_json(url("/v1/logs"))),
+                (Signal::Logs, Transport::GrpcProto) if short => builder.logs(emit_otlp::logs_grpc_proto(grpc_base)),
+                (Signal::Logs, _) if short => builder.logs(emit_otlp::logs_http_proto(url("/v1/logs"))),
+                (Signal::Traces, Transport::HttpJson) if short => builder.traces(emit_otlp::traces_http_json(url("/v1/traces"))),
+                (Signal::Traces, Transport::GrpcProto) if short => builder.traces(emit_otlp::traces_grpc_proto(grpc_base)),
+                (Signal::Traces, _) if short => builder.traces(emit_otlp::traces_http_proto(url("/v1/traces"))),
+                (Signal::Metrics, Transport::HttpJson) if short => builder.metrics(emit_otlp::metrics_http_json(url("/v1/metrics"))),
+                (Signal::Metrics, Transport::GrpcProto) if short => builder.metrics(emit_otlp::metrics_grpc_proto(grpc_base)),
+                (Signal::Metrics, _) if short => builder.metrics(emit_otlp::metrics_http_proto(url("/v1/metrics"))),
                 (Signal::Logs, Transport::HttpJson) => builder.logs(emit_otlp::logs_json(transport("/v1/logs"))),
                 (Signal::Logs, _) => builder.logs(emit_otlp::logs_proto(transport("/v1/logs"))),
                 (Signal::Traces, Transport::HttpJson) => builder.traces(emit_otlp::traces_json(transport("/v1/traces"))),
